@@ -261,3 +261,49 @@ Proof.
       destruct (Pf p m Hin) as [sfx Hs]; exists (k :: sfx); rewrite Hs, <- app_assoc; reflexivity.
     + split; [reflexivity|]. intros p m Hin; destruct (Pf p m Hin) as [sfx Hs]; exists (k :: sfx); rewrite Hs, <- app_assoc; reflexivity.
 Qed.
+
+(* ---------------- the whole argument list ---------------- *)
+Definition wf_eargs (args : eargs) : bool :=
+  match args with
+  | ASingle (EList l) => forallb wf_earg l
+  | ASingle (EDict l) => forallb (fun kx => wf_earg (snd kx)) l
+  | ASingle _ => false
+  | APairs l => forallb (fun kx => wf_earg (snd kx)) l
+  | AOdd => false
+  end.
+
+Lemma from_pairs_spec : forall l base,
+  snd (from_pairs l base) = negb (forallb (fun kx => wf_earg (snd kx)) l) /\
+  (forall p m, In (p, m) (fst (from_pairs l base)) -> exists suffix, p = base ++ suffix).
+Proof.
+  induction l as [|[k x] r IH]; intros base; [simpl; split; [reflexivity|intros p m []]|].
+  simpl. destruct (from_arg_spec x (base ++ key_path k)) as [E Pf].
+  destruct (from_arg x (base ++ key_path k)) as [ys e]; simpl in E, Pf; subst e.
+  destruct (wf_earg x); simpl.
+  - destruct (IH base) as [E2 Pf2]. destruct (from_pairs r base) as [zs e']; simpl in *; split; [exact E2|].
+    intros p m Hin; apply in_app_or in Hin; destruct Hin as [Hin|Hin]; [|apply (Pf2 p m Hin)].
+    destruct (Pf p m Hin) as [sfx Hs]; exists (key_path k ++ sfx); rewrite Hs, <- app_assoc; reflexivity.
+  - split; [reflexivity|]. intros p m Hin; destruct (Pf p m Hin) as [sfx Hs]; exists (key_path k ++ sfx); rewrite Hs, <- app_assoc; reflexivity.
+Qed.
+
+(* the generator of a whole call ends normally exactly on well-formed arguments (one list / tuple / dict, or key / structure
+   pairs, with matchers at all the leaves), and every key path it yields starts with base_key *)
+Theorem from_args_spec : forall args base_key,
+  (snd (from_args args base_key) = None <-> wf_eargs args = true) /\
+  (forall p m, In (p, m) (fst (from_args args base_key)) -> exists suffix, p = key_path base_key ++ suffix).
+Proof.
+  intros args base_key; unfold from_args, wf_eargs; destruct args as [a|l|].
+  - destruct a as [m| l| l| ].
+    + split; [split; discriminate|intros p m' []].
+    + destruct (from_arg_spec (EList l) (key_path base_key)) as [E Pf].
+      destruct (from_arg (EList l) (key_path base_key)) as [ys e]; cbn [fst snd] in *; subst e; split; [|exact Pf].
+      cbn [wf_earg]; destruct (forallb wf_earg l); cbn [negb]; split; auto; discriminate.
+    + destruct (from_arg_spec (EDict l) (key_path base_key)) as [E Pf].
+      destruct (from_arg (EDict l) (key_path base_key)) as [ys e]; cbn [fst snd] in *; subst e; split; [|exact Pf].
+      cbn [wf_earg]; destruct (forallb (fun kx => wf_earg (snd kx)) l); cbn [negb]; split; auto; discriminate.
+    + split; [split; discriminate|intros p m' []].
+  - destruct (from_pairs_spec l (key_path base_key)) as [E Pf].
+    destruct (from_pairs l (key_path base_key)) as [ys e]; cbn [fst snd] in *; subst e; split; [|exact Pf].
+    destruct (forallb (fun kx => wf_earg (snd kx)) l); cbn [negb]; split; auto; discriminate.
+  - split; [split; discriminate|intros p m []].
+Qed.
